@@ -415,6 +415,21 @@ class World(object):
         live = self.cons + self.padcons
         n = len(live)
         self.n_compares += 1
+
+        def get_J():
+            try:
+                return m.evaluate_jacobian()
+            except ValueError as e:
+                raise _Stop(fail('jacobian/not_square_after_%s' % after, 'evaluate_jacobian raised %r with %d live constraints'
+                                 % (e, n), self.tags))
+            except Exception as e:
+                raise _Stop(fail(exc_bucket(e, 'raises'), 'evaluate_jacobian raised %r' % (e,), self.tags))
+        # the two evaluations are independent queries at the current point: every other comparison asks for the Jacobian
+        # first (a Newton loop asks for the residuals first, other callers need not)
+        jac_first = self.n_compares % 2 == 0
+        J0 = get_J() if jac_first else None
+        if jac_first:
+            self.tags.add('feat:jacobian_before_residuals')
         r = self.call('evaluate_residuals', m.evaluate_residuals)
         if len(r) != n:
             raise _Stop(fail('residual/length', 'evaluate_residuals() has %d entries, %d live constraints'
@@ -428,13 +443,7 @@ class World(object):
         vidx = sorted(t[3] for t in reg)
         if vidx != list(range(len(reg))):
             raise _Stop(fail('index/variables_not_a_permutation', 'Var.index values %r' % (vidx,), self.tags))
-        try:
-            J = m.evaluate_jacobian()
-        except ValueError as e:
-            raise _Stop(fail('jacobian/not_square_after_%s' % after, 'evaluate_jacobian raised %r with %d constraints and '
-                             '%d referenced variables' % (e, n, len(reg)), self.tags))
-        except Exception as e:
-            raise _Stop(fail(exc_bucket(e, 'raises'), 'evaluate_jacobian raised %r' % (e,), self.tags))
+        J = J0 if jac_first else get_J()
         if J.shape != (n, n) or len(J.indptr) != n + 1 or J.indptr[-1] != len(J.data) or len(J.indices) != len(J.data):
             raise _Stop(fail('jacobian/malformed_csr', 'shape %r indptr %r nnz %d' % (J.shape, list(J.indptr), len(J.data)),
                              self.tags))
